@@ -22,7 +22,7 @@ type keyClass struct {
 type badKey struct {
 	Kind string `json:"kind"`
 	N    int    `json:"n"`
-	Ch   string `json:"ch"`
+	Ch   int    `json:"ch"`
 	Pos  int    `json:"pos"`
 }
 type licMut struct {
@@ -139,11 +139,7 @@ func Run(c *core.Ctx) {
 					s = (good + "AAAA")[:bk.N]
 				}
 			case "char":
-				ch := bk.Ch
-				if ch == "high" {
-					ch = "\x80"
-				}
-				s = good[:bk.Pos] + ch + good[bk.Pos+1:]
+				s = good[:bk.Pos] + string([]byte{byte(bk.Ch)}) + good[bk.Pos+1:]
 			}
 			var e error
 			var k security.Key
@@ -211,7 +207,7 @@ func Run(c *core.Ctx) {
 	rej := c.ValidateTraces(traces, core.ValidateOpts{Module: "Codec", Cfg: "INIT TraceInit\nNEXT TraceNext\nCONSTRAINT MarkC\nPOSTCONDITION AllConsumed\nCHECK_DEADLOCK FALSE\n", ChunkSize: 1000000})
 	c.ReportRejections(rej, "key cipher / license codec contract broken (round trip, injectivity, rejection of malformed input, total-or-error)")
 	c.Set("distinct_nontrivial", nontrivial)
-	c.Set("rule", "TLC enumerates boundary classes (salt/body patterns zero / ones / random x 10 permission bytes; key strings of length 0,1,31,33,64 and one invalid character ('=', '+', '/', space, 0x80) at positions 0,1,15,30,31; license strings truncated / flipped / re-suffixed / empty / garbage for the 3 versions); each class is filled with seeded random bytes and run through the real EncryptKey / DecryptKey / Parse / String / Cipher; TLC evaluates the contract on every recorded event; non-trivial = events not of the all-zero class")
+	c.Set("rule", "TLC enumerates boundary classes (salt/body patterns zero / ones / random x 10 permission bytes; key strings of length 0,1,31,33,64 and every one of the 192 invalid byte values at positions 0,1,15,30,31; license strings truncated / flipped / re-suffixed / empty / garbage for the 3 versions); each class is filled with seeded random bytes and run through the real EncryptKey / DecryptKey / Parse / String / Cipher; TLC evaluates the contract on every recorded event; non-trivial = events not of the all-zero class")
 	c.Assume = append(c.Assume, "the cipher arithmetic itself is not specified in TLA+ (numeric fidelity is outside this family); TLC evaluates the algebraic contract on recorded values")
 	c.Finish()
 }
